@@ -258,3 +258,27 @@ impl std::str::FromStr for ParsedTestCase {
         ParsedTestCase::parse(input)
     }
 }
+
+#[cfg(feature = "verif-hooks")]
+impl ParsedTestCase {
+    pub(crate) fn verif_virtual_signals(&self) -> Vec<(String, Expr)> {
+        self.virtual_signals
+            .iter()
+            .map(|(virt, _)| (virt.name.clone(), virt.expr.clone()))
+            .collect()
+    }
+
+    pub(crate) fn verif_expected_inputs(&self) -> Vec<String> {
+        self.expected_inputs
+            .iter()
+            .map(|(name, _)| name.clone())
+            .collect()
+    }
+
+    pub(crate) fn verif_read_outputs(&self) -> Vec<String> {
+        self.read_outputs
+            .iter()
+            .map(|(name, _)| name.clone())
+            .collect()
+    }
+}
